@@ -74,14 +74,16 @@ class C18(vlib.PropertyCheck):
         return 'h %d %d %d %s' % (align, seed, length, hx(key))
 
     def lengths(self, tier):
-        ls = list(range(0, 65))
-        top = 30 if tier == 'quick' else 90
+        """(length, how many of the 8 alignments, cases per alignment)"""
+        out = [(n, 8, 4 if tier == 'quick' else 8) for n in range(0, 65)]
+        top = 22 if tier == 'quick' else 60
         for k in range(6, top):
-            ls += [12 * k - 1, 12 * k, 12 * k + 1]
-        ls += [255, 256, 257, 1023, 1024, 1025]
-        if tier != 'quick':
-            ls += [4095, 4096, 4097, 4103, 4104, 8000]
-        return sorted(set(ls))
+            for n in (12 * k - 1, 12 * k, 12 * k + 1):
+                out.append((n, 8, 2 if tier == 'quick' else 4))
+        big = [255, 256, 257, 1023, 1024, 1025] + ([] if tier == 'quick' else [2047, 2048, 2049, 4095, 4096, 4097, 4103, 4104, 8000])
+        for n in big:
+            out.append((n, 2 if tier == 'quick' else 8, 1))
+        return out
 
     def gen(self, tier, rng):
         cases = []
@@ -90,9 +92,9 @@ class C18(vlib.PropertyCheck):
             for seed in SEEDS:
                 cases.append(self.case(align, seed, 0, []))
                 cases.append(self.case(align, seed, 1, [rng.randrange(256)]))
-        per = 3 if tier == 'quick' else 8
-        for n in self.lengths(tier):
-            for align in range(8):
+        for (n, nalign, per) in self.lengths(tier):
+            aligns = list(range(8)) if nalign == 8 else rng.sample(range(8), nalign)
+            for align in aligns:
                 for j in range(per):
                     seed = SEEDS[j] if j < 2 else (rng.choice(SEEDS) if rng.random() < 0.3 else rng.randrange(1 << 32))
                     kind = 'rand' if j == 0 else rng.choice(KINDS)
@@ -105,9 +107,9 @@ class C18(vlib.PropertyCheck):
                 key = [0] * n
                 key[pos] = 0x81
                 cases.append(self.case(rng.randrange(8), 0, n, key))
-        nrand = 1500 if tier == 'quick' else 40000
+        nrand = 2000 if tier == 'quick' else 25000
         for _ in range(nrand):
-            n = rng.choice([rng.randrange(0, 64), rng.randrange(0, 200), rng.randrange(0, 600)])
+            n = rng.choice([rng.randrange(0, 64), rng.randrange(0, 100), rng.randrange(0, 300)])
             cases.append(self.case(rng.randrange(8), rng.choice(SEEDS) if rng.random() < 0.2 else rng.randrange(1 << 32),
                                    n, contents(rng.choice(KINDS), n, rng)))
         return cases
